@@ -35,7 +35,11 @@ class StackingContext:
         # by z-index, then tree order.
 
         self.z_index = box.style['z_index']
-        if self.z_index == 'auto':
+        applies = (
+            box.style['position'] != 'static' or
+            box.is_flex_item or box.is_grid_item)
+        if self.z_index == 'auto' or not applies:
+            # z-index only applies to positioned boxes, flex and grid items
             self.z_index = 0
 
     @classmethod
